@@ -5,9 +5,9 @@ namespace ShootVerif.Drive
 open ShootVerif.Fs
 
 /-!
-`(case <id> fs17 (cmd new) (cwd "") (pkg "p/") (dirp "p/") (clean) (genfile "a.shootnew.go")
+`(case <id> fs17 (cmd new) (pkg "p/") (clean) (genfile "a.shootnew.go")
     (outs (o "a.shootnew.go" "123") …)                       -- output base name, temp suffix
-    (listing (f "a.shootnew.go" (line "// Code …")) (f "z.shootnew.old.go" nonl) …)   -- package dir as Clean sees it
+    (listing (f "a.shootnew.go" (line "// Code …")) …)   -- package dir as Clean sees it
     (init (e "p/a.go" 0) (e "p/a.shootnew.go" 1) (e "p/backup.txt" 1) …))             -- path ↦ inode before the run`
 The driver also SIMULATES every crash prefix of the op sequence on the given initial directory
 (content of inode i = [i]; output j is written in two chunks [1000+j], [2000+j]).
@@ -19,8 +19,7 @@ def fsStr (s : Sexp) (k : String) : String := match s.field? k with
 
 def parseFileInfo : Sexp → Option FileInfo
   | s@(.list (.atom "f" :: .atom name :: _)) =>
-    if s.hasFlag "nonl" then some { name := name, firstLine := none }
-    else some { name := name, firstLine := some (fsStr s "line") }
+    some { name := name, firstLine := fsStr s "line" }
   | _ => none
 
 def parseOut (j : Nat) : Sexp → Option (String × List Bytes × String)
@@ -52,7 +51,7 @@ def fs17Case (id : String) (payload : List Sexp) : List String :=
   | some cmd, some outs, some listing, some init =>
     -- `tmpfail`: the temp name exceeds NAME_MAX, os.CreateTemp fails: logx.Fatalf before anything is written (exit 1)
     let tmpfail := p.hasFlag "tmpfail"
-    let c : Config := { cmd := cmd, cwdPrefix := fsStr p "cwd", pkgPrefix := fsStr p "pkg", dirPrefix := fsStr p "dirp",
+    let c : Config := { cmd := cmd, pkgPrefix := fsStr p "pkg",
                         outs := if tmpfail then [] else outs, cleanActive := p.hasFlag "clean", genfile := fsStr p "genfile", listing := listing }
     let txns := c.txns
     let rms := c.clean
@@ -82,7 +81,7 @@ def fs17Case (id : String) (payload : List Sexp) : List String :=
       [ ("ops", dash (sortStrs (tg.map (fun t => "txn:" ++ t)) ++ rms.map (fun r => "rm:" ++ r))),
         ("created", dash (sortStrs tg)),
         ("removed", dash (sortStrs rms)),
-        ("exit", if c.cleanNames.2 || tmpfail then "1" else "0"),
+        ("exit", if tmpfail then "1" else "0"),
         ("confined", fsyn confined), ("cleanonly", fsyn cleanonly), ("atomic", fsyn atomic), ("frame", fsyn frame),
         ("hardlink", fsyn hardlink), ("notemp", fsyn notemp), ("reader", "yes") ]
     let spec : List (String × String) :=
